@@ -13,13 +13,38 @@ def check(tier):
     n = lexcommon.lex_replay(rep, pvh, ["MC_PongoLexer_code_q.cfg", "MC_PongoLexer_mixed_q.cfg", "MC_PongoLexer_text_q.cfg"] if q else
                              ["MC_PongoLexer_code_t.cfg", "MC_PongoLexer_text_t.cfg", "MC_PongoLexer_mixed_t.cfg"], KINDS)
     n += lexcommon.fixture_traces(rep, pvh, KINDS)
+    # errors: failing constructs x layout prefixes x places (own text, child block, Super, parent block, include, import) and the
+    # programs of the grammar: the position an error carries must be one in the template it names, where its token's text stands
+    import json
+    lines = []
+    res = run_tlc("MC_PongoDiag", "MC_PongoDiag.cfg", timeout=600, deadlock=False, vector_sink=lambda o: lines.append(json.dumps(o)))
+    require_model_ok(res, "MC_PongoDiag.cfg")
+    rep.add_tlc("MC_PongoDiag.cfg", res)
+    reg = run_harness(pvh, ["registry"])["extra"]
+    names = run_harness(pvh, ["c01-names"])["extra"]["names"]
+    qq = lambda xs: ", ".join('"%s"' % x for x in xs)
+    cfg = ("INIT Init\nNEXT Next\nCONSTANTS\n  RegTags = {%s}\n  RegFilters = {%s}\n  CtxNames = {%s}\n  Budget = %d\n  CrossFamily = \"none\"\nINVARIANTS Emit\n"
+           % (qq(reg["tags"]), qq(reg["filters"]), qq(names), 20))
+    res = run_tlc("MC_PongoApi", "gen.cfg", timeout=3000, deadlock=False, simulate=(150 if q else 3000), depth=200,
+                  extra_files={"gen.cfg": cfg}, vector_sink=lambda o: lines.append(json.dumps(o)))
+    require_model_ok(res, "grammar simulation")
+    rep.add_tlc("MC_PongoApi grammar simulation (seed %d)" % seed(), res)
+    r = run_harness(pvh, ["c16-errors"], stdin_text="\n".join(lines) + "\n", timeout=3000)
+    for v in r["violations"]:
+        rep.violation(v["key"], v["detail"])
+    rep.cov["evaluations"] += r["checked"]
+    rep.extra["error_positions_checked"] = r["extra"]["errors_checked"]
+    n += r["checked"]
     rep.cov["traces_validated_against_impl"] += n
     rep.assumptions += ["columns are 1-based and counted in bytes; a lexer error is positioned at the start of the construct being lexed "
                         "(an unclosed verbatim block: at the end of input)"]
     return rep.finish(
         rule="every symbol string up to the bound over the text and code-mode alphabets (multi-line, CR, multi-byte, strings with escapes, "
              "comments, verbatim); TLC checks CursorExact/PositionExact (incremental line/column bookkeeping = declarative position) in "
-             "every state; every token's and every lexer error's line/column of the real lexer must equal the specification's.",
+             "every state; every token's and every lexer error's line/column of the real lexer must equal the specification's. Errors: 16 failing "
+             "constructs (compile-time and run-time) x 5 layout prefixes x 7 places (the template itself, a child's block, a block reached through "
+             "Super, a parent's own block, an included file, a nested include in a loop, an imported macro) and the programs of the grammar "
+             "simulation: every error with a position must name one of the program's templates and point into its text at the reported token.",
         exhaustive=True)
 
 
